@@ -5,7 +5,7 @@ CONSTANTS
   NItems = 1
   MaxAnswers = 2
   Chains <- ChainsShrexOnly
-  NPeers = 3
+  NPeers = 2
   BlockStores <- StoresLight
   ClearOnFail = FALSE
   FreshDecode = FALSE
